@@ -4,6 +4,23 @@ import json, os
 ROOT = os.path.dirname(os.path.dirname(os.path.abspath(__file__)))
 
 CLAIMED = {
+ 'C01': dict(
+   text=("Three solver layers over the live grammar: (B) every token regex of formula_grammar() is converted to a z3 regular "
+         "expression and proven language-equal to the token rule of the documented BNF over unbounded strings; (A) derivation "
+         "trees of the documented grammar are rendered to strings whose count literals are symbolic reals, the real pyparsing "
+         "grammar and all parse actions run, and atoms/charge/density are proven equal to the tree's denotation for all count "
+         "values; (C) the token->value closures are checked by CrossHair (symbolic str, len<=3) and by solver enumeration of "
+         "the bounded token language. Malformed strings are concrete negative twins of every skeleton."),
+   note="skeleton sizes bounded (<=3 groups, depth<=3); pyparsing itself is executed, not modelled; lexical behaviour on arbitrary strings outside; float()/int() of count literals replaced by symbols",
+   technique="z3 sequence/regex theory for token languages; symbolic execution of the real parser actions on z3 Real proxies + SMT validity; CrossHair on token closures",
+   ref='4/C01'),
+ 'C02': dict(
+   text=("The real Formula constructors and operators (+, n*, +=) run on symbolic counts, multipliers and atom masses (private "
+         "table); atoms, mass, charge, mass fractions are proven equal to the count-weighted sums for all real values on every "
+         "enumerated shape/operator expression; operands are checked unchanged by object identity on every path."),
+   note="shapes depth<=3, width<=3, operator expressions of <=3 applications; floats as exact reals",
+   technique="symbolic execution of the real Python functions on z3 Real proxies (path forking) + SMT (QF_NRA) validity queries",
+   ref='4/C02'),
  'C03': dict(
    text=("Bounded symbolic model checking of the real neutron_scattering/_calculate_scattering/Neutron.* code: "
          "the repository's function objects are executed on z3-backed reals (all counts, density, wavelength/energy and, "
